@@ -73,7 +73,6 @@ class Recorder:
         if self.sink is not None:
             self.sink.write(json.dumps(e) + '\n')
             self.sink.flush()
-            os.fsync(self.sink.fileno()) if self.fault_mode == 'crash' else None
         return e
 
     def new_write(self, pred):
